@@ -158,6 +158,8 @@ fn hash(ptr: usize) -> usize {
     (ptr >> 3).wrapping_mul(0x9E3779B97F4A7C15usize) >> 20
 }
 
+const TOMB: u32 = u32::MAX;
+
 unsafe fn index_find(ptr: usize) -> Option<usize> {
     unsafe {
         if ST.index_cap == 0 {
@@ -170,8 +172,31 @@ unsafe fn index_find(ptr: usize) -> Option<usize> {
             if v == 0 {
                 return None;
             }
-            if ST.blocks.get(v as usize - 1).user == ptr {
+            if v != TOMB && ST.blocks.get(v as usize - 1).user == ptr {
                 return Some(v as usize - 1);
+            }
+            i = (i + 1) & mask;
+        }
+    }
+}
+
+/// Forget an address (its memory went back to System and may be handed out again, possibly to
+/// an allocation we do not track).
+unsafe fn index_remove(ptr: usize) {
+    unsafe {
+        if ST.index_cap == 0 {
+            return;
+        }
+        let mask = ST.index_cap - 1;
+        let mut i = hash(ptr) & mask;
+        loop {
+            let v = *ST.index.add(i);
+            if v == 0 {
+                return;
+            }
+            if v != TOMB && ST.blocks.get(v as usize - 1).user == ptr {
+                *ST.index.add(i) = TOMB;
+                return;
             }
             i = (i + 1) & mask;
         }
@@ -192,7 +217,11 @@ unsafe fn index_rebuild(ncap: usize) {
         ST.index_used = 0;
         // later blocks win (an address can only repeat after its earlier block was released)
         for b in 0..ST.blocks.len {
-            index_put(ST.blocks.get(b).user, b);
+            // released blocks whose memory went back to System are no longer ours to recognise
+            let blk = ST.blocks.get(b);
+            if blk.live || ST.quarantine || blk.free_ctx == 0xEE {
+                index_put(blk.user, b);
+            }
         }
     }
 }
@@ -208,7 +237,7 @@ unsafe fn index_put(ptr: usize, block: usize) {
                 ST.index_used += 1;
                 return;
             }
-            if ST.blocks.get(v as usize - 1).user == ptr {
+            if v != TOMB && ST.blocks.get(v as usize - 1).user == ptr {
                 *ST.index.add(i) = block as u32 + 1;
                 return;
             }
@@ -310,6 +339,7 @@ unsafe impl GlobalAlloc for Seam {
             if ST.quarantine {
                 ST.bytes_quarantined += r + b.size + r;
             } else {
+                index_remove(p as usize);
                 System.dealloc(inner, Layout::from_size_align_unchecked(r + b.size + r, b.align));
             }
         }
